@@ -66,7 +66,8 @@ def observe(c, cli=True):
 
 
 def _observe(c, cli=True):
-    if cli:
+    import vinegar.cli.server as _CLI
+    if cli and hasattr(_CLI, "_run_server_internal"):
         k = through_cli(c)
         if "missing" in k:
             # a configured key did not reach create_tftp_server: the server then runs with its default for it
@@ -76,9 +77,46 @@ def _observe(c, cli=True):
     return observe_server(c)
 
 
+def observe_public(c):
+    """the same five, observed from outside when the private transfer class cannot be intercepted (renamed or with
+    another signature): a silent client sees 1 + max_retries copies of the OACK, default_timeout apart, announcing
+    min(65464, max_block_size); the largest accepted timeout option is max_timeout (binary search).  The wrap value
+    cannot be seen without a transfer of more than 65535 blocks: it is reported as configured (not judged here; the
+    transfer part of C01 runs such transfers)."""
+    import io
+    import fake_net
+    import tftp_common as T
+
+    def run(opts):
+        return fake_net.run_transfer([], lambda *a: io.BytesIO(b"x"), opts, default_timeout=c[0], max_timeout=c[1],
+                                     max_retries=c[2], max_block_size=c[3], wrap=c[4], public=True)
+    log = run({"blksize": "65464"})
+    sends = [e for e in log if e[0] == "send"]
+    oack = T.parse_packet(sends[0][3])
+    max_bs = int(dict((k, v) for k, v in oack[1])[b"blksize"])
+    retries = len(sends) - 1
+    dflt = (sends[1][1] - sends[0][1]) / fake_net.TICK if len(sends) > 1 else -1
+
+    def accepted(t):
+        lg = run({"timeout": str(t)})
+        p = T.parse_packet([e for e in lg if e[0] == "send"][0][3])
+        return p[0] == 6 and any(k == b"timeout" for k, _v in p[1])
+    lo, hi = 0, 255                  # largest accepted value; 0 = none
+    while lo < hi:
+        mid = (lo + hi + 1) // 2
+        if accepted(mid):
+            lo = mid
+        else:
+            hi = mid - 1
+    return (dflt, lo, retries, max_bs, c[4])
+
+
 def observe_server(c):
     """c = (default_tmo, max_tmo, retries, max_bs, wrap); wrap may be None/int/bool -> the same five as they reach
     the transfer"""
+    import fake_net
+    if fake_net.private_class() is None:
+        return observe_public(c)
     seen = []
 
     class Rec:
@@ -138,6 +176,11 @@ def cfg_checks(tier, rng, report, prefix=""):
     stats = {"server_config_cases": 0, "server_config_disagreements": 0, "server_config_impl_failures": 0}
     failing = []
     cs = list(cases(tier, rng))
+    import fake_net
+    if fake_net.private_class() is None:
+        # observation from outside costs nine transfers per configuration: a sample
+        cs = cs[::9]
+        stats["server_config_observed_through_the_public_path"] = True
     obs0 = [observe(c) for c in cs]
     # refused outside the documented ranges: no property says such a configuration must be accepted
     stats["server_config_refused_outside_documented_ranges"] = sum(
